@@ -111,6 +111,31 @@ def run_one(ck, prog):
         steps[name] = lst
     ck.floor("C13.2", "child-side steps", sum(len(v) for v in steps.values()), 9)
 
+    # the child does what was configured and nothing else: every call that reaches the kernel from the child's branch (or its helpers) is one
+    # of the configured steps, the status report (write) or exit. An extra step - closing "the originals" after dup2, say - changes what the
+    # new program inherits (Stdio::RawFd(1) for stderr: the close takes the child's stdout away)
+    from ..engine.cfg import is_raw_syscall
+    ALLOWED_EXTRA = ("rusl::unistd::write::write", "rusl::process::exit::exit")
+
+    def kernel_step(c):
+        return c is not None and c.startswith("rusl::") and c in prog.fns and any(is_raw_syscall(x) for x in cg.reach([c]))
+    extra = []
+    n_kernel = 0
+    for c2, blocks in [(ctx, region)] + [(prog.ctx(h), None) for _, h in helpers]:
+        for bb, t in c2.cfg.calls():
+            if blocks is not None and bb not in blocks:
+                continue
+            c = t.get("resolved") or t.get("callee")
+            if kernel_step(c):
+                n_kernel += 1
+                if c not in STEP_ORDER and c not in ALLOWED_EXTRA:
+                    extra.append((c2, bb, c))
+    ck.floor("C13.2", "kernel calls on the child's side", n_kernel, 9)
+    for c2, bb, c in extra:
+        ck.ob("C13.2", f"child-does-only-what-was-configured|{c.split('::')[-1]}", False, fn=c2.path, site=c2.site(bb),
+              detail=f"the forked child calls `{c}`, which is neither a configured step (dup2, chdir, setuid, setgid, setpgid, hooks, execve) nor the status report / exit")
+    ck.ob("C13.2", "child-does-only-what-was-configured", not extra, fn=DO_SPAWN, detail=f"{n_kernel} kernel calls on the child's side checked against the configured steps")
+
     def may_follow(x, y):
         """step site y can execute after step site x."""
         (cx, bx, ox), (cy, by, oy) = x, y
